@@ -1,6 +1,7 @@
 import Pxv.Lemmas.Order
 import Pxv.Lemmas.Stalemate
 import Pxv.Lemmas.StalemateInClass
+import Pxv.Lemmas.Complex
 /-!
 C02 — rule-abiding blueprints are accepted: the ordering step never gets stuck.
 
@@ -488,5 +489,30 @@ example : (exCross true).wellFormed = true ∧ captureFree (exCross true) = true
   intro e he
   simp [exCross] at he
   rcases he with rfl | rfl | rfl | rfl | rfl | rfl | rfl | rfl <;> decide
+
+/-! ### `complex_borrow_check`, mirrored statement by statement (Model/Complex.lean, compared with the real pass on every
+call graph of every program through the hooks affca2a) -/
+
+/-- **C02 — the third clone-insertion pass leaves rule-abiding call graphs alone**: when every value that some node takes by
+    value is Copy, or is borrowed by nobody (neither through a `&`/`&mut` input nor through a value that holds a reference
+    to it), `complexCheck` returns the call graph unchanged and reports nothing — for every graph size and shape, every
+    order of the adjacency lists, every strategy state. (The values the property also allows — Clone and clone-if-necessary
+    — are covered by `complex_pass_only_clones_cloneable`, Thm/C04, and the per-graph correspondence.) -/
+theorem complex_pass_silent_when_uncontended {g : Graph} (h : uncontended g = true) :
+    (complexCheck g).g = g ∧ (complexCheck g).diags = [] :=
+  complexCheck_silent_of_uncontended h
+
+/-- the call graph of the doc comment of `complex_borrow_check`: `D` takes `A` and borrows `B`, `C` takes `B` and borrows `A` -/
+def exX (ca cb : Bool) : Graph := ⟨[{ cloneable := ca }, { cloneable := cb }, {}, {}, {}],
+  [⟨0, 2, .move⟩, ⟨1, 2, .shared⟩, ⟨1, 3, .move⟩, ⟨0, 3, .shared⟩, ⟨2, 4, .move⟩, ⟨3, 4, .move⟩]⟩
+-- non-vacuity: a graph with moves AND borrows that meets the hypothesis (the borrowed value is not the moved one) ...
+example : uncontended ⟨[{}, {}, {}, {}], [⟨0, 2, .move⟩, ⟨1, 2, .shared⟩, ⟨1, 3, .shared⟩, ⟨2, 3, .move⟩]⟩ = true := by decide
+-- ... and the pass does act when it is not met: two diagnostics ("Pavex should detect this and return two errors"), or one
+-- clone of the first value that may be cloned, for the node that wanted it by value
+example : uncontended (exX false false) = false ∧ (complexCheck (exX false false)).diags = [(3, [1]), (2, [0])] ∧
+    (complexCheck (exX false false)).g = exX false false := by decide
+example : (complexCheck (exX true false)).diags = [] ∧
+    (complexCheck (exX true false)).g.edges.filter (fun e => !((exX true false).edges.contains e)) = [⟨0, 5, .shared⟩, ⟨5, 2, .move⟩] ∧
+    (complexCheck (exX true false)).fuelOut = false := by decide
 
 end Pxv.CG
